@@ -2231,6 +2231,9 @@ func (m *Msg) WriteTo(writer io.Writer) (int64, error) {
 
 	if m.hasSMIME() {
 		if err := m.signMessage(); err != nil {
+			// nothing was written; the header lines counted by the abandoned render must not be
+			// added to those of the next one
+			m.headerCount = 0
 			return 0, err
 		}
 	}
